@@ -324,6 +324,7 @@ type MsgSpec struct {
 	Headers  [][2]string `json:"headers,omitempty"`
 	Preform  [][2]string `json:"preform,omitempty"` // preformatted generic headers
 	Boundary string      `json:"boundary,omitempty"`
+	PGP      string      `json:"pgp,omitempty"` // "" | encrypt | signature (WithPGPType: the caller supplies PGP/MIME parts)
 	NoMsg    bool        `json:"noMsg,omitempty"` // a nil *Msg in the batch
 	// Middlewares: the chain of message middlewares, by type: "reset" (sets the Subject to the
 	// spec's subject), "tag" (appends " [tagged]" to the Subject), "xhdr" (sets X-Middleware).
@@ -656,6 +657,12 @@ func BuildMsg(s MsgSpec, o BuildOpts) *Built {
 	if s.Boundary != "" {
 		mopts = append(mopts, mail.WithBoundary(s.Boundary))
 	}
+	switch s.PGP {
+	case "encrypt":
+		mopts = append(mopts, mail.WithPGPType(mail.PGPEncrypt))
+	case "signature":
+		mopts = append(mopts, mail.WithPGPType(mail.PGPSignature))
+	}
 	for _, t := range s.Middlewares {
 		mopts = append(mopts, mail.WithMiddleware(simMW{typ: t, subject: s.Subject}))
 	}
@@ -773,6 +780,12 @@ func BuildMsg(s MsgSpec, o BuildOpts) *Built {
 			}
 		case "readseeker":
 			r := &faultReader{p: pr}
+			if n := len(f.Content.Data); n%3 == 1 && n > 8 && !f.Content.Fail {
+				// the caller has read a few bytes of the source (a magic number, say) before
+				// handing it over; whatever the attachment is taken to be — the rest or the
+				// whole — it is the same in every render
+				r.pos = 5
+			}
 			if embed {
 				m.EmbedReadSeeker(f.Name, r, fopts...)
 			} else {
